@@ -595,6 +595,7 @@ func c25OpenFDs(base string) []string {
 }
 
 type c25Result struct {
+	stuck            bool // the cleaner goroutine did not terminate: no quiescence, no leak verdicts
 	gateOK           bool
 	nontrivial       bool
 	faults           int
@@ -870,19 +871,25 @@ func c25Goroutines(subs ...string) int {
 // releases of a CleanStop close) exists any more.  From then on no Release can happen, so a
 // handle that is still open stays open.
 func c25Finish(rec *c25Rec, cfg c25Cfg, tw *vfTraceWriter, trNo int, root string, t0 time.Time, bodyErr *atomic.Value) c25Result {
-	deadline := time.Now().Add(120 * time.Second)
+	// If the cleaner does not terminate, quiescence cannot be established: then nothing is concluded
+	// from what is still open (no leak verdict ever depends on this wait expiring); closes and uses
+	// that already happened are judged all the same, and the test stops after this execution.
+	stuck := false
+	deadline := time.Now().Add(45 * time.Second)
 	for c25Goroutines("handleCleanCache") > rec.cleaners {
 		if time.Now().After(deadline) {
-			vfInfra("a cache cleaner goroutine is still running 120s after its manager was closed")
+			stuck = true
 			break
 		}
 		time.Sleep(time.Millisecond)
 	}
 	rec.mu.Lock()
-	if !cfg.skipCache && rec.cm != nil && !rec.closedSeen {
+	if !stuck && !cfg.skipCache && rec.cm != nil && !rec.closedSeen {
 		rec.infra = "the cache manager never reported its close"
 	}
-	rec.emitLocked(vfRec{"ev": "quiesce"})
+	if !stuck {
+		rec.emitLocked(vfRec{"ev": "quiesce"})
+	}
 	VerifHook = nil
 	evs := rec.evs
 	rec.evs = nil
@@ -899,7 +906,7 @@ func c25Finish(rec *c25Rec, cfg c25Cfg, tw *vfTraceWriter, trNo int, root string
 	}
 	tw.Emit(vfRec{"ev": "end"})
 
-	res := c25Result{events: len(evs), requests: nr, faults: rec.faults, dur: time.Since(t0)}
+	res := c25Result{events: len(evs), requests: nr, faults: rec.faults, dur: time.Since(t0), stuck: stuck}
 	// non-trivial: a duplicate open was discarded, a file was evicted / the manager closed while a
 	// response was still reading it, a pooled reader was reused, the last reader released a file
 	// of a closed manager, or an injected fault fired
@@ -924,6 +931,7 @@ func c25Finish(rec *c25Rec, cfg c25Cfg, tw *vfTraceWriter, trNo int, root string
 	// direct checks, independent of the specification
 	for _, h := range rec.handles {
 		switch n := h.closes.Load(); {
+		case n == 0 && stuck:
 		case n == 0:
 			return fail("leak:"+tag+":"+c25Class(h.name), fmt.Sprintf("handle %d (%s) was opened but never closed (manager closed, server shut down, cleaner goroutine gone)", h.id, h.name))
 		case n > 1:
@@ -934,6 +942,9 @@ func c25Finish(rec *c25Rec, cfg c25Cfg, tw *vfTraceWriter, trNo int, root string
 		}
 	}
 	for _, ff := range rec.files {
+		if stuck {
+			break // the cleaner may hold cacheLock for ever
+		}
 		c25LockFor(ff, func() {
 			if ff.readersCount != 0 && res.key == "" {
 				res.key = "readers-left:" + tag
@@ -941,7 +952,7 @@ func c25Finish(rec *c25Rec, cfg c25Cfg, tw *vfTraceWriter, trNo int, root string
 			}
 		})
 	}
-	if res.key != "" {
+	if res.key != "" || stuck {
 		return res
 	}
 	if cfg.mode == "os" {
@@ -1141,7 +1152,7 @@ func TestVerifC25FSCache(t *testing.T) {
 	kinds := map[string]int{}
 	ngated := vfEnvInt("VERIF_C25_GATED", 8)
 	orders := []string{"CR", "CRR", "RCR", "CRRR", "RCRR", "RC"}
-	gates := 0
+	gates, stuckAt := 0, 0
 	for n := 1; n <= ngated+ntr; n++ {
 		i := n - ngated // number of the ordinary execution
 		if n <= ngated {
@@ -1168,6 +1179,10 @@ func TestVerifC25FSCache(t *testing.T) {
 			}
 			if n == 1 {
 				vfSample(vfRec{"trace": n, "cfg": fmt.Sprintf("%+v", gcfg), "events": res.events, "requests": res.requests, "gate": res.gateOK})
+			}
+			if res.stuck {
+				stuckAt, ngated, ntr = n, n, 0
+				break
 			}
 			continue
 		}
@@ -1214,8 +1229,15 @@ func TestVerifC25FSCache(t *testing.T) {
 		if i <= 2 {
 			vfSample(vfRec{"trace": i, "cfg": fmt.Sprintf("%+v", cfg), "events": res.events, "requests": res.requests})
 		}
+		if res.stuck {
+			stuckAt, ntr = n, i
+			break
+		}
 	}
 	tw.Close()
+	if stuckAt > 0 && nfail == 0 {
+		vfInfra(fmt.Sprintf("execution %d: the cache cleaner goroutine was still running 45s after its manager was closed and nothing else was observed", stuckAt))
+	}
 	vfStat(ntr+ngated, nontriv, vfRec{"gated_executions": ngated, "gates_established": gates, "events": total, "requests": reqs, "injected_faults": faults, "exec_ms_total": int(dur / time.Millisecond),
 		"trace_file": os.Getenv("VERIF_WORK") + "/" + name})
 	vfDone()
